@@ -22,6 +22,10 @@ def run(tier, seed, replay_rows=None):
             raise vlib.MachineryError("%s should violate %s on the spec: %s" % (cfg, inv, r.summary()))
         ck.add_tlc(cfg, r)
     runtraces.check(ck, "C05", rows=replay_rows)
+    if replay_rows is None:
+        # users mode at yield-point grain: cooperative schedules of the real ContinuousPool (limit, cancel, pool started
+        # on a context that is already done; stopper / workers / bodies starved in turn)
+        runtraces.extra(ck, "C05", "cpool", "cpool.ndjson")
     return ck.finish()
 
 
